@@ -1453,21 +1453,22 @@ def newExec (s : St) (id d : Nat) (tr : Trace) (b : Nat) : Exec :=
   { rid := s.execs.length, id := id, deadline := d, trace := { tr with span := .fresh s.nextFresh }, body := b,
     guardArmed := false }
 
-/-- `startRequest`'s state after the timer queue's self-wake (an insert that becomes the earliest
+/-- `startRequest`'s state after the timer queue's self-wake (`w`: an insert that becomes the earliest
 deadline wakes the waker the queue stored at its last `poll_expired`): only `woken` and `obs` change -/
-def startWoke (s : St) (now id d : Nat) : St :=
-  if (s.timers.insert now (clampTimeout (d - now)) id).2.2 then wakeServer s else s
+def startWoke (s : St) (w : Bool) : St := if w then wakeServer s else s
 
-/-- the three outcomes of `startRequest`: duplicate id, invalid deadline (panic), accepted -/
+/-- the three outcomes of `startRequest`: duplicate id, invalid deadline (panic), accepted.
+(The result of `DelayQ.insert` is named, not projected out of the call, so that no term the kernel has
+to reduce contains the call itself.) -/
 theorem startRequest_cases (s : St) (now id d : Nat) (tr : Trace) (b : Nat) :
     ((findEntry s id).isSome = true ∧ startRequest s now id d tr b = (s, none))
     ∨ (findEntry s id = none ∧ (s.timers.insert now (clampTimeout (d - now)) id).2.1 = .panic ∧
         startRequest s now id d tr b =
           (emit { s with poisoned := true } (.panic (tid s) "DelayQueue::insert: invalid deadline"), none))
-    ∨ (findEntry s id = none ∧ ∃ key, (s.timers.insert now (clampTimeout (d - now)) id).2.1 = .ok key ∧
+    ∨ (findEntry s id = none ∧ ∃ q key w, s.timers.insert now (clampTimeout (d - now)) id = (q, .ok key, w) ∧
         startRequest s now id d tr b =
-          ({ startWoke s now id d with
-                    timers := (s.timers.insert now (clampTimeout (d - now)) id).1, nextFresh := s.nextFresh + 1,
+          ({ startWoke s w with
+                    timers := q, nextFresh := s.nextFresh + 1,
                     inflight := s.inflight ++ [{ id := id, timerKey := key, rid := s.execs.length,
                                                  remainder := (d - now) - clampTimeout (d - now) }],
                     execs := s.execs ++ [newExec s id d tr b] }, some (newExec s id d tr b))) := by
@@ -1482,106 +1483,104 @@ theorem startRequest_cases (s : St) (now id d : Nat) (tr : Trace) (b : Nat) :
     · left; pair_subst; exact ⟨hf', by assumption, rfl⟩
     · right
       rename_i q key woke hins
-      refine ⟨hf', key, by rw [hins], ?_⟩
-      have hw : startWoke s now id d = (if woke then wakeServer s else s) := by
-        unfold startWoke; rw [hins]
-      rw [hw, hins]
+      refine ⟨hf', q, key, woke, hins, ?_⟩
+      unfold startWoke
       cases woke
       · rfl
       · simp only [if_true]
         unfold wakeServer newExec
         split <;> rfl
 
-@[simp] theorem startWoke_sidx (s : St) (now id d : Nat) : (startWoke s now id d).sidx = s.sidx := by
+@[simp] theorem startWoke_sidx (s : St) (w : Bool) : (startWoke s w).sidx = s.sidx := by
   unfold startWoke wakeServer; (repeat' split) <;> rfl
 
-@[simp] theorem startWoke_inflight (s : St) (now id d : Nat) : (startWoke s now id d).inflight = s.inflight := by
+@[simp] theorem startWoke_inflight (s : St) (w : Bool) : (startWoke s w).inflight = s.inflight := by
   unfold startWoke wakeServer; (repeat' split) <;> rfl
 
-@[simp] theorem startWoke_timers (s : St) (now id d : Nat) : (startWoke s now id d).timers = s.timers := by
+@[simp] theorem startWoke_timers (s : St) (w : Bool) : (startWoke s w).timers = s.timers := by
   unfold startWoke wakeServer; (repeat' split) <;> rfl
 
-@[simp] theorem startWoke_poisoned (s : St) (now id d : Nat) : (startWoke s now id d).poisoned = s.poisoned := by
+@[simp] theorem startWoke_poisoned (s : St) (w : Bool) : (startWoke s w).poisoned = s.poisoned := by
   unfold startWoke wakeServer; (repeat' split) <;> rfl
 
-@[simp] theorem startWoke_limit (s : St) (now id d : Nat) : (startWoke s now id d).limit = s.limit := by
+@[simp] theorem startWoke_limit (s : St) (w : Bool) : (startWoke s w).limit = s.limit := by
   unfold startWoke wakeServer; (repeat' split) <;> rfl
 
-@[simp] theorem startWoke_throttleAfterRead (s : St) (now id d : Nat) : (startWoke s now id d).throttleAfterRead = s.throttleAfterRead := by
+@[simp] theorem startWoke_throttleAfterRead (s : St) (w : Bool) : (startWoke s w).throttleAfterRead = s.throttleAfterRead := by
   unfold startWoke wakeServer; (repeat' split) <;> rfl
 
-@[simp] theorem startWoke_dropped (s : St) (now id d : Nat) : (startWoke s now id d).dropped = s.dropped := by
+@[simp] theorem startWoke_dropped (s : St) (w : Bool) : (startWoke s w).dropped = s.dropped := by
   unfold startWoke wakeServer; (repeat' split) <;> rfl
 
-@[simp] theorem startWoke_done (s : St) (now id d : Nat) : (startWoke s now id d).done = s.done := by
+@[simp] theorem startWoke_done (s : St) (w : Bool) : (startWoke s w).done = s.done := by
   unfold startWoke wakeServer; (repeat' split) <;> rfl
 
-@[simp] theorem startWoke_respQ (s : St) (now id d : Nat) : (startWoke s now id d).respQ = s.respQ := by
+@[simp] theorem startWoke_respQ (s : St) (w : Bool) : (startWoke s w).respQ = s.respQ := by
   unfold startWoke wakeServer; (repeat' split) <;> rfl
 
-@[simp] theorem startWoke_cancelQ (s : St) (now id d : Nat) : (startWoke s now id d).cancelQ = s.cancelQ := by
+@[simp] theorem startWoke_cancelQ (s : St) (w : Bool) : (startWoke s w).cancelQ = s.cancelQ := by
   unfold startWoke wakeServer; (repeat' split) <;> rfl
 
-@[simp] theorem startWoke_execs (s : St) (now id d : Nat) : (startWoke s now id d).execs = s.execs := by
+@[simp] theorem startWoke_execs (s : St) (w : Bool) : (startWoke s w).execs = s.execs := by
   unfold startWoke wakeServer; (repeat' split) <;> rfl
 
-@[simp] theorem startWoke_nextFresh (s : St) (now id d : Nat) : (startWoke s now id d).nextFresh = s.nextFresh := by
+@[simp] theorem startWoke_nextFresh (s : St) (w : Bool) : (startWoke s w).nextFresh = s.nextFresh := by
   unfold startWoke wakeServer; (repeat' split) <;> rfl
 
-@[simp] theorem startWoke_nextVis (s : St) (now id d : Nat) : (startWoke s now id d).nextVis = s.nextVis := by
+@[simp] theorem startWoke_nextVis (s : St) (w : Bool) : (startWoke s w).nextVis = s.nextVis := by
   unfold startWoke wakeServer; (repeat' split) <;> rfl
 
-@[simp] theorem startWoke_cancelRxWaker (s : St) (now id d : Nat) : (startWoke s now id d).cancelRxWaker = s.cancelRxWaker := by
+@[simp] theorem startWoke_cancelRxWaker (s : St) (w : Bool) : (startWoke s w).cancelRxWaker = s.cancelRxWaker := by
   unfold startWoke wakeServer; (repeat' split) <;> rfl
 
-@[simp] theorem startWoke_rqAvail (s : St) (now id d : Nat) : (startWoke s now id d).rqAvail = s.rqAvail := by
+@[simp] theorem startWoke_rqAvail (s : St) (w : Bool) : (startWoke s w).rqAvail = s.rqAvail := by
   unfold startWoke wakeServer; (repeat' split) <;> rfl
 
-@[simp] theorem startWoke_rqWaiters (s : St) (now id d : Nat) : (startWoke s now id d).rqWaiters = s.rqWaiters := by
+@[simp] theorem startWoke_rqWaiters (s : St) (w : Bool) : (startWoke s w).rqWaiters = s.rqWaiters := by
   unfold startWoke wakeServer; (repeat' split) <;> rfl
 
-@[simp] theorem startWoke_rqAssigned (s : St) (now id d : Nat) : (startWoke s now id d).rqAssigned = s.rqAssigned := by
+@[simp] theorem startWoke_rqAssigned (s : St) (w : Bool) : (startWoke s w).rqAssigned = s.rqAssigned := by
   unfold startWoke wakeServer; (repeat' split) <;> rfl
 
-@[simp] theorem startWoke_rqRxWaker (s : St) (now id d : Nat) : (startWoke s now id d).rqRxWaker = s.rqRxWaker := by
+@[simp] theorem startWoke_rqRxWaker (s : St) (w : Bool) : (startWoke s w).rqRxWaker = s.rqRxWaker := by
   unfold startWoke wakeServer; (repeat' split) <;> rfl
 
-@[simp] theorem startWoke_readFused (s : St) (now id d : Nat) : (startWoke s now id d).readFused = s.readFused := by
+@[simp] theorem startWoke_readFused (s : St) (w : Bool) : (startWoke s w).readFused = s.readFused := by
   unfold startWoke wakeServer; (repeat' split) <;> rfl
 
-@[simp] theorem startWoke_t (s : St) (now id d : Nat) : (startWoke s now id d).t = s.t := by
+@[simp] theorem startWoke_t (s : St) (w : Bool) : (startWoke s w).t = s.t := by
   unfold startWoke wakeServer; (repeat' split) <;> rfl
 
-@[simp] theorem startWoke_respCap (s : St) (now id d : Nat) : (startWoke s now id d).respCap = s.respCap := by
+@[simp] theorem startWoke_respCap (s : St) (w : Bool) : (startWoke s w).respCap = s.respCap := by
   unfold startWoke wakeServer; (repeat' split) <;> rfl
 
-@[simp] theorem startWoke_ensureLoop (s : St) (now id d : Nat) : (startWoke s now id d).ensureLoop = s.ensureLoop := by
+@[simp] theorem startWoke_ensureLoop (s : St) (w : Bool) : (startWoke s w).ensureLoop = s.ensureLoop := by
   unfold startWoke wakeServer; (repeat' split) <;> rfl
 
-@[simp] theorem startWoke_gh (L : Option Nat) (g0 : Ghost) (s : St) (now id d : Nat) :
-    gh L g0 (startWoke s now id d).obs = gh L g0 s.obs := by
+@[simp] theorem startWoke_gh (L : Option Nat) (g0 : Ghost) (s : St) (w : Bool) :
+    gh L g0 (startWoke s w).obs = gh L g0 s.obs := by
   unfold startWoke; split <;> simp
 
 @[simp] theorem startRequest_sidx (s : St) (now id d : Nat) (tr : Trace) (b : Nat) : (startRequest s now id d tr b).1.sidx = s.sidx := by
-  rcases startRequest_cases s now id d tr b with ⟨_, h⟩ | ⟨_, _, h⟩ | ⟨_, _, _, h⟩ <;> simp [h]
+  rcases startRequest_cases s now id d tr b with ⟨_, h⟩ | ⟨_, _, h⟩ | ⟨_, _, _, _, _, h⟩ <;> simp [h]
 
 @[simp] theorem startRequest_limit (s : St) (now id d : Nat) (tr : Trace) (b : Nat) : (startRequest s now id d tr b).1.limit = s.limit := by
-  rcases startRequest_cases s now id d tr b with ⟨_, h⟩ | ⟨_, _, h⟩ | ⟨_, _, _, h⟩ <;> simp [h]
+  rcases startRequest_cases s now id d tr b with ⟨_, h⟩ | ⟨_, _, h⟩ | ⟨_, _, _, _, _, h⟩ <;> simp [h]
 
 @[simp] theorem startRequest_throttleAfterRead (s : St) (now id d : Nat) (tr : Trace) (b : Nat) : (startRequest s now id d tr b).1.throttleAfterRead = s.throttleAfterRead := by
-  rcases startRequest_cases s now id d tr b with ⟨_, h⟩ | ⟨_, _, h⟩ | ⟨_, _, _, h⟩ <;> simp [h]
+  rcases startRequest_cases s now id d tr b with ⟨_, h⟩ | ⟨_, _, h⟩ | ⟨_, _, _, _, _, h⟩ <;> simp [h]
 
 @[simp] theorem startRequest_dropped (s : St) (now id d : Nat) (tr : Trace) (b : Nat) : (startRequest s now id d tr b).1.dropped = s.dropped := by
-  rcases startRequest_cases s now id d tr b with ⟨_, h⟩ | ⟨_, _, h⟩ | ⟨_, _, _, h⟩ <;> simp [h]
+  rcases startRequest_cases s now id d tr b with ⟨_, h⟩ | ⟨_, _, h⟩ | ⟨_, _, _, _, _, h⟩ <;> simp [h]
 
 @[simp] theorem startRequest_done (s : St) (now id d : Nat) (tr : Trace) (b : Nat) : (startRequest s now id d tr b).1.done = s.done := by
-  rcases startRequest_cases s now id d tr b with ⟨_, h⟩ | ⟨_, _, h⟩ | ⟨_, _, _, h⟩ <;> simp [h]
+  rcases startRequest_cases s now id d tr b with ⟨_, h⟩ | ⟨_, _, h⟩ | ⟨_, _, _, _, _, h⟩ <;> simp [h]
 
 @[simp] theorem startRequest_respQ (s : St) (now id d : Nat) (tr : Trace) (b : Nat) : (startRequest s now id d tr b).1.respQ = s.respQ := by
-  rcases startRequest_cases s now id d tr b with ⟨_, h⟩ | ⟨_, _, h⟩ | ⟨_, _, _, h⟩ <;> simp [h]
+  rcases startRequest_cases s now id d tr b with ⟨_, h⟩ | ⟨_, _, h⟩ | ⟨_, _, _, _, _, h⟩ <;> simp [h]
 
 @[simp] theorem startRequest_cancelQ (s : St) (now id d : Nat) (tr : Trace) (b : Nat) : (startRequest s now id d tr b).1.cancelQ = s.cancelQ := by
-  rcases startRequest_cases s now id d tr b with ⟨_, h⟩ | ⟨_, _, h⟩ | ⟨_, _, _, h⟩ <;> simp [h]
+  rcases startRequest_cases s now id d tr b with ⟨_, h⟩ | ⟨_, _, h⟩ | ⟨_, _, _, _, _, h⟩ <;> simp [h]
 
 @[simp] theorem baseStartSend_sidx (s : St) (id : Nat) (res : Res) : (baseStartSend s id res).1.sidx = s.sidx := by
   unfold baseStartSend; (try simp only []); (repeat' split) <;> pair_subst <;> simp [*]
@@ -1616,7 +1615,7 @@ theorem startRequest_cases (s : St) (now id d : Nat) (tr : Trace) (b : Nat) :
 @[simp] theorem cancelRequest_gh (L : Option Nat) (g0 : Ghost) (s : St) (id : Nat) : gh L g0 (cancelRequest s id).1.obs = gh L g0 s.obs := by
   unfold cancelRequest; (try simp only []); (repeat' split) <;> pair_subst <;> simp [*]
 
-theorem rearm_gh (L : Option Nat) (g0 : Ghost) {s s2 : St} {now : Nat} {en : SEntry} (hr : rearm s now en = some s2) :
+theorem rearm_gh (L : Option Nat) (g0 : Ghost) {s s2 : St} {now late : Nat} {en : SEntry} (hr : rearm s now late en = some s2) :
     gh L g0 s2.obs = gh L g0 s.obs := by
   obtain ⟨q', key, w, _, rfl⟩ := rearm_some hr
   cases w <;> simp
@@ -1638,7 +1637,7 @@ theorem rearm_gh (L : Option Nat) (g0 : Ghost) {s s2 : St} {now : Nat} {en : SEn
     | panicked q e en hp hf h0 hr => simp
 
 @[simp] theorem startRequest_gh (L : Option Nat) (g0 : Ghost) (s : St) (now id d : Nat) (tr : Trace) (b : Nat) : gh L g0 (startRequest s now id d tr b).1.obs = gh L g0 s.obs := by
-  rcases startRequest_cases s now id d tr b with ⟨_, h⟩ | ⟨_, _, h⟩ | ⟨_, _, _, h⟩ <;> simp [h]
+  rcases startRequest_cases s now id d tr b with ⟨_, h⟩ | ⟨_, _, h⟩ | ⟨_, _, _, _, _, h⟩ <;> simp [h]
 
 /-! ## walking the poll functions once: relations closed under the primitive steps -/
 
@@ -2028,14 +2027,14 @@ theorem mid_cancelRequest {L g0} (s : St) (id : Nat) (h : Mid L g0 s) : Mid L g0
     exact (h.remove_timer_step he _ (by simp) (by simp) (Or.inr (by simp)) (by simp) (by simp)).1
 
 /-- with distinct ids, re-keying the entry with `en`'s id changes only `en`'s `(timerKey, id)` pair -/
-theorem perm_map_rearmUpd {l : List SEntry} (hn : (l.map (·.id)).Nodup) {en : SEntry} (he : en ∈ l) (key : Nat) :
-    ((l.map (rearmUpd en.id key)).map SEntry.kv).Perm
+theorem perm_map_rearmUpd {l : List SEntry} (hn : (l.map (·.id)).Nodup) {en : SEntry} (he : en ∈ l) (key late : Nat) :
+    ((l.map (rearmUpd en.id key late)).map SEntry.kv).Perm
       ((key, en.id) :: (l.filter (fun x => x.id != en.id)).map SEntry.kv) := by
   have h1 := perm_cons_filter_key (·.id) hn he
-  have h2 := (h1.map (rearmUpd en.id key)).map SEntry.kv
+  have h2 := (h1.map (rearmUpd en.id key late)).map SEntry.kv
   refine h2.trans ?_
   simp only [List.map_cons]
-  have hhead : (rearmUpd en.id key en).kv = (key, en.id) := by
+  have hhead : (rearmUpd en.id key late en).kv = (key, en.id) := by
     unfold rearmUpd; rw [if_pos (by simp)]; rfl
   rw [hhead]
   refine List.Perm.cons _ (List.Perm.of_eq ?_)
@@ -2048,9 +2047,9 @@ theorem perm_map_rearmUpd {l : List SEntry} (hn : (l.map (·.id)).Nodup) {en : S
 
 /-- Re-arming the timer of a tracked entry: the fired timer is gone from the queue, a fresh one with a
 fresh key is in, the entry carries the new key. -/
-theorem Mid.rearm_entry {L g0} {s s' : St} (h : Mid L g0 s) {en : SEntry} (he : en ∈ s.inflight) {key : Nat}
+theorem Mid.rearm_entry {L g0} {s s' : St} (h : Mid L g0 s) {en : SEntry} (he : en ∈ s.inflight) {key late : Nat}
     {kvq : List (Nat × Nat)}
-    (hin : s'.inflight = s.inflight.map (rearmUpd en.id key))
+    (hin : s'.inflight = s.inflight.map (rearmUpd en.id key late))
     (hpop : s.timers.kv.Perm (en.kv :: kvq))
     (hins : s'.timers.kv.Perm ((key, en.id) :: kvq)) (hwf : s'.timers.KvWF)
     (hek : s'.execs.map ekey = s.execs.map ekey)
@@ -2066,7 +2065,7 @@ theorem Mid.rearm_entry {L g0} {s s' : St} (h : Mid L g0 s) {en : SEntry} (he : 
   refine ⟨⟨?_, ?_, hwf⟩, ⟨?_, ?_, ?_⟩, ⟨?_, ?_⟩, ?_, ?_⟩
   · rw [hids]; exact h.table.idNodup
   · rw [hin]
-    refine (perm_map_rearmUpd h.table.idNodup he key).trans ?_
+    refine (perm_map_rearmUpd h.table.idNodup he key late).trans ?_
     have h1 := perm_cons_filter_key (·.id) h.table.idNodup he
     have h2 := (h1.map SEntry.kv)
     rw [List.map_cons] at h2
@@ -2141,7 +2140,7 @@ theorem mid_expireStep {L g0} (s : St) (now : Nat) (h : Mid L g0 s) : Mid L g0 (
         rw [hnk]
         exact h.table.dq.lt p (hperm.mem_iff.mpr (List.mem_cons_of_mem _ hp))
     have hwf := DelayQ.insert_ok_wf _ _ _ _ _ _ _ hi hqwf
-    refine h.rearm_entry hen (key := key) (kvq := q.kv) rfl (by rw [henkv]; exact hperm) hp' hwf ?_ ?_ ?_
+    refine h.rearm_entry hen (key := key) (late := now - d.whenMs * nsPerMs) (kvq := q.kv) rfl (by rw [henkv]; exact hperm) hp' hwf ?_ ?_ ?_
     · cases w <;> simp
     · cases w <;> simp
     · cases w <;> simp
@@ -2215,19 +2214,12 @@ theorem prod_eta3 {α β γ : Type} (p : α × β × γ) : p = (p.1, p.2.1, p.2.
 theorem mid_startRequest {L g0} (s : St) (now id d : Nat) (tr : Trace) (b : Nat) (h : Mid L g0 s)
     (hr : id ∈ (gh L g0 s.obs).reads) (hs : id ∉ (gh L g0 s.obs).sent) :
     Mid L g0 (startRequest s now id d tr b).1 := by
-  rcases startRequest_cases s now id d tr b with ⟨_, h1⟩ | ⟨_, _, h1⟩ | ⟨hf, key, hk, h1⟩
+  rcases startRequest_cases s now id d tr b with ⟨_, h1⟩ | ⟨_, _, h1⟩ | ⟨hf, q', key, w, hq, h1⟩
   · rw [h1]; exact h
   · rw [h1]; exact h.of_frame rfl (.refl _) rfl rfl (by simp) rfl
   · rw [h1]
-    have hgw := startWoke_gh L g0 s now id d
-    have hlw := startWoke_limit s now id d
-    revert hk hgw hlw
-    generalize startWoke s now id d = sw
-    generalize hq : s.timers.insert now (clampTimeout (d - now)) id = r
-    obtain ⟨q', res, w⟩ := r
-    intro hk hgw hlw
-    simp only at hk
-    subst hk
+    have hgw := startWoke_gh L g0 s w
+    have hlw := startWoke_limit s w
     obtain ⟨_, _, hperm⟩ := DelayQ.insert_ok_spec _ _ _ _ _ _ _ hq
     have hwf := DelayQ.insert_ok_wf _ _ _ _ _ _ _ hq h.table.dq
     have hek : (s.execs ++ [newExec s id d tr b]).map ekey = s.execs.map ekey ++ [(s.execs.length, id, false)] := by
@@ -2329,7 +2321,7 @@ theorem mid_requestsPollNext {L g0} (fuel : Nat) (s : St) (now : Nat) (h : Mid L
 
 theorem startRequest_execs_length_ge (s : St) (now id d : Nat) (tr : Trace) (b : Nat) :
     s.execs.length ≤ (startRequest s now id d tr b).1.execs.length := by
-  rcases startRequest_cases s now id d tr b with ⟨_, h⟩ | ⟨_, _, h⟩ | ⟨_, _, _, h⟩ <;> simp [h]
+  rcases startRequest_cases s now id d tr b with ⟨_, h⟩ | ⟨_, _, h⟩ | ⟨_, _, _, _, _, h⟩ <;> simp [h]
 
 theorem Quiet.execs_length {s s' : St} (h : Quiet s s') : s'.execs.length = s.execs.length := by
   simpa using congrArg List.length h.ekeys
@@ -2464,7 +2456,7 @@ theorem shrink_pumpWrite (s : St) (rc : Bool) : Shrink s (pumpWrite s rc).1 :=
 /-- a refused (`none`) `startRequest` leaves table and executions alone -/
 theorem startRequest_none_shrink (s : St) (now id d : Nat) (tr : Trace) (b : Nat)
     (h : (startRequest s now id d tr b).2 = none) : Shrink s (startRequest s now id d tr b).1 := by
-  rcases startRequest_cases s now id d tr b with ⟨_, h1⟩ | ⟨_, _, h1⟩ | ⟨_, _, _, h1⟩
+  rcases startRequest_cases s now id d tr b with ⟨_, h1⟩ | ⟨_, _, h1⟩ | ⟨_, _, _, _, _, h1⟩
   · rw [h1]; exact Shrink.refl s
   · rw [h1]; exact ⟨Nat.le_refl _, Nat.le_refl _⟩
   · rw [h1] at h; cases h
@@ -2481,7 +2473,7 @@ structure Started (s0 s' : St) (ex : Exec) : Prop where
 
 theorem startRequest_some (s : St) (now id d : Nat) (tr : Trace) (b : Nat) (s' : St) (ex : Exec)
     (h : startRequest s now id d tr b = (s', some ex)) : Started s s' ex ∧ ex.id = id := by
-  rcases startRequest_cases s now id d tr b with ⟨_, h1⟩ | ⟨_, _, h1⟩ | ⟨hf, key, _, h1⟩
+  rcases startRequest_cases s now id d tr b with ⟨_, h1⟩ | ⟨_, _, h1⟩ | ⟨hf, _, key, _, _, h1⟩
   · rw [h1] at h; cases h
   · rw [h1] at h; cases h
   · rw [h1] at h
